@@ -115,7 +115,7 @@ theorem loadSafe_sound {cfg : Cfg} {cx : Ctx} {e : Entry} {K : Known} (hv : Vali
     simp [loadPanics, this.1]
 
 /-- result component is neither kind of panic -/
-def NoPanic (r : R) : Prop := r ≠ .panic ∧ r ≠ .crash
+def NoPanic (r : R) : Prop := r ≠ .panic ∧ r ≠ .crash ∧ ∀ t, r ≠ .hazard t
 
 theorem basic_sound (cfg : Cfg) (cx : Ctx) (e : Entry) (hE : e.engine ≠ .panics) :
     ∀ (ss : List Step) (K K' : Known), Valid cx e K → knownBasic cfg K ss = some K' →
@@ -162,6 +162,14 @@ theorem basic_sound (cfg : Cfg) (cx : Ctx) (e : Entry) (hE : e.engine ≠ .panic
         simpa [runBasic, stepBasic, hp] using this
       · simp at hk
     | checkName ex m => simp [knownBasic] at hk
+    | need a tag =>
+      simp only [knownBasic] at hk
+      split at hk
+      · rename_i hc
+        have ha := hv a (mem_of_contains hc)
+        have := ih _ _ hv hk
+        simpa [runBasic, stepBasic, ha] using this
+      · simp at hk
     | body =>
       simp only [knownBasic] at hk
       have := ih _ _ hv hk
@@ -227,13 +235,29 @@ theorem steps_sound (cfg : Cfg) (cx : Ctx) (e : Entry) (hE : e.engine ≠ .panic
         simp only [hkb] at hk
         let cx' : Ctx := { cx with checkExist := resolveExist cx ex }
         have hb := basic_sound cfg cx' e hE cfg.checkName _ _ (valid_dropCtx cx' hv) hkb
+        -- the knowledge after the call: `dropCtx K1`, plus "the swamp exists" when the existence guard was live
+        obtain ⟨K2, hK2, hk⟩ : ∃ K2, (Valid cx' e K1 → Valid cx e K2) ∧ knownSteps cfg K2 ss = some K' := by
+          by_cases hyes : (ex == ExistP.yes && K1.contains Atom.notExistChk) = true
+          · rw [if_pos hyes] at hk
+            refine ⟨_, ?_, hk⟩
+            intro hv1 a ha
+            rcases List.mem_cons.mp ha with h | h
+            · subst h
+              simp only [Bool.and_eq_true, beq_iff_eq] at hyes
+              have hx := hv1 _ (mem_of_contains hyes.2)
+              have hce : cx'.checkExist = true := by simp [cx', resolveExist, hyes.1]
+              simp only [atomEval, hce, Bool.true_and, Option.some.injEq] at hx
+              simp [atomEval, hx]
+            · exact valid_dropCtx cx hv1 a h
+          · rw [if_neg hyes] at hk
+            exact ⟨_, fun hv1 => valid_dropCtx cx hv1, hk⟩
         cases hr : runBasic cfg cx' e cfg.checkName with
         | mk r b =>
           have hr1 : (runBasic cfg cx' e cfg.checkName).1 = r := by rw [hr]
           rw [hr1] at hb
           cases r with
           | next =>
-            have hv1 : Valid cx e (dropCtx K1) := valid_dropCtx cx (hb.2 rfl)
+            have hv1 : Valid cx e K2 := hK2 (hb.2 rfl)
             have := ih _ _ hv1 hk
             simp only [runE, stepE, cx', hr] at this ⊢
             exact this
@@ -246,9 +270,19 @@ theorem steps_sound (cfg : Cfg) (cx : Ctx) (e : Entry) (hE : e.engine ≠ .panic
             | early => simp [NoPanic]
             | reject c' m' => simp [NoPanic]
             | panic => exact absurd haf this.1.1
-            | crash => exact absurd haf this.1.2
+            | crash => exact absurd haf this.1.2.1
+            | hazard t => exact absurd haf (this.1.2.2 t)
           | panic => exact absurd rfl hb.1.1
-          | crash => exact absurd rfl hb.1.2
+          | crash => exact absurd rfl hb.1.2.1
+          | hazard t => exact absurd rfl (hb.1.2.2 t)
+    | need a tag =>
+      simp only [knownSteps] at hk
+      split at hk
+      · rename_i hc
+        have ha := hv a (mem_of_contains hc)
+        have := ih _ _ hv hk
+        simpa [runE, stepE, stepBasic, ha] using this
+      · simp at hk
     | body =>
       simp only [knownSteps] at hk
       have := ih _ _ hv hk
@@ -289,7 +323,8 @@ theorem loop_sound (cfg : Cfg) (cx : Ctx) (vd : Bool) (steps : List Step) (K K' 
         exact ⟨hrest.1, hrest.2⟩
       | reject c m => simp [loopE, hr, NoPanic]
       | panic => exact absurd rfl hs.1.1
-      | crash => exact absurd rfl hs.1.2
+      | crash => exact absurd rfl hs.1.2.1
+      | hazard t => exact absurd rfl (hs.1.2.2 t)
 
 /-- assumptions on the request shape: the atoms of `A` are false on this entry -/
 def Assumed (A : Known) (e : Entry) : Prop :=
@@ -307,7 +342,8 @@ theorem outcomeOf_defined (h : Handler) (hn : h.okNil = false) (r : R) (hp : NoP
     (outcomeOf h r).defined = true := by
   cases r <;> simp [outcomeOf, Outcome.defined, hn]
   · exact absurd rfl hp.1
-  · exact absurd rfl hp.2
+  · exact absurd rfl hp.2.1
+  · exact absurd rfl (hp.2.2 _)
 
 /-- **Definedness.**  A handler accepted by `safeH` answers every request whose entries satisfy the
     assumptions `A` with a response or a gRPC error — never `(nil, nil)`, never an escaping panic —
@@ -341,7 +377,8 @@ theorem exec_defined (cfg : Cfg) (A : Known) (h : Handler) (hs : safeH cfg A h =
       simp only [hr]
       simp [outcomeOf, Outcome.defined]
     | panic => exact absurd hr l1.1.1
-    | crash => exact absurd hr l1.1.2
+    | crash => exact absurd hr l1.1.2.1
+    | hazard t => exact absurd hr (l1.1.2.2 t)
 
 /-! ### Counters -/
 
@@ -392,6 +429,11 @@ theorem basic_noBody (cfg : Cfg) (cx : Ctx) (e : Entry) :
     | load => simp only [runBasic, stepBasic]; split <;> simp_all
     | loadGo => simp only [runBasic, stepBasic]; split <;> simp_all
     | checkName ex m => simpa [runBasic, stepBasic] using this
+    | need a tag =>
+      simp only [runBasic, stepBasic]
+      cases atomEval cx e a with
+      | none => simp
+      | some b => cases b <;> simp [this]
     | body => simp [isBody] at h
     | unknown => simpa [runBasic, stepBasic] using this
 
@@ -417,6 +459,11 @@ theorem stepE_noBody (cfg : Cfg) (cx : Ctx) (e : Entry) (hc : cfg.checkName.all 
       simp only at this
       subst this
       cases r <;> simp
+  | need a tag =>
+    simp only [stepE, stepBasic]
+    cases atomEval cx e a with
+    | none => simp
+    | some b => cases b <;> simp
   | body => simp [isBody] at hs
   | unknown => simp [stepE, stepBasic]
 
@@ -480,6 +527,11 @@ theorem stepE_noReject (cfg : Cfg) (cx : Ctx) (e : Entry) (hE : e.engine = .ok) 
     | fpEarly => simp [canReject] at hs
     | nfEarly => simp [canReject] at hs
     | wrap c => simp [canReject] at hs
+  | need a tag =>
+    simp only [stepE, stepBasic]
+    cases atomEval cx e a with
+    | none => simp [IsReject]
+    | some b => cases b <;> simp [IsReject]
   | body => simp [stepE, stepBasic, hE, IsReject]
   | unknown => simp [stepE, stepBasic, IsReject]
 
@@ -503,6 +555,7 @@ theorem runE_noReject (cfg : Cfg) (cx : Ctx) (e : Entry) (hE : e.engine = .ok) :
       | reject c m => exact absurd trivial h1
       | panic => simp [IsReject]
       | crash => simp [IsReject]
+      | hazard t => simp [IsReject]
 
 theorem loop_noReject (cfg : Cfg) (cx : Ctx) (vd : Bool) (steps : List Step)
     (hs : steps.all (fun s => !canReject s) = true) :
@@ -523,6 +576,7 @@ theorem loop_noReject (cfg : Cfg) (cx : Ctx) (vd : Bool) (steps : List Step)
       | reject c m => exact absurd trivial h1
       | panic => simp [loopE, hr, IsReject]
       | crash => simp [loopE, hr, IsReject]
+      | hazard t => simp [loopE, hr, IsReject]
 
 /-- with the rejecting steps before the engine call, a rejection means the engine was not entered -/
 theorem runE_ordered (cfg : Cfg) (cx : Ctx) (e : Entry) (hE : e.engine = .ok)
@@ -558,6 +612,7 @@ theorem runE_ordered (cfg : Cfg) (cx : Ctx) (e : Entry) (hE : e.engine = .ok)
         | reject c m => simp
         | panic => simp
         | crash => simp
+        | hazard t => simp
 
 theorem loop_passed_length (cfg : Cfg) (cx : Ctx) (vd : Bool) (steps : List Step) :
     ∀ es : List Entry, (loopE cfg cx vd steps es).passed.length ≤ es.length := by
@@ -582,6 +637,7 @@ theorem loop_passed_mem (cfg : Cfg) (cx : Ctx) (vd : Bool) (steps : List Step) :
         · exact h ▸ List.mem_cons_self ..
         · exact List.mem_cons_of_mem _ (ih e' h)
       · exact List.mem_cons_of_mem _ (ih e' he')
+      · cases he'
       · cases he'
       · cases he'
       · cases he'
@@ -615,6 +671,7 @@ theorem exec_rejectPure (cfg : Cfg) (h : Handler) (hw : h.writes = true) (he : e
       | early => rw [hr2] at hrej; simp only [outcomeOf] at hrej; split at hrej <;> simp [isGrpcError] at hrej
       | panic => rw [hr2] at hrej; simp only [outcomeOf] at hrej; split at hrej <;> simp [isGrpcError] at hrej
       | crash => rw [hr2] at hrej; simp [outcomeOf, isGrpcError] at hrej
+      | hazard t => rw [hr2] at hrej; simp [outcomeOf, isGrpcError] at hrej
     · have hmu' : h.multi = false := by simpa using hmu
       simp only [hmu', Bool.false_eq_true, if_false] at hm
       have hlen := loop_passed_length cfg cx h.vigilDeferred h.val (entriesOf h sh)
@@ -639,11 +696,13 @@ theorem exec_rejectPure (cfg : Cfg) (h : Handler) (hw : h.writes = true) (he : e
           | early => simp [loopE, hre, outcomeOf] at hrej; split at hrej <;> simp [isGrpcError] at hrej
           | panic => simp [loopE, hre, outcomeOf] at hrej; split at hrej <;> simp [isGrpcError] at hrej
           | crash => simp [loopE, hre, outcomeOf, isGrpcError] at hrej
+          | hazard t => simp [loopE, hre, outcomeOf, isGrpcError] at hrej
       | _ :: _ :: _, hl, _ => simp [hone] at hl
   | early => simp only [cx] at hr b1; simp [hr, b1]
   | reject c m => simp only [cx] at hr b1; simp [hr, b1]
   | panic => simp only [cx] at hr b1; simp [hr, b1]
   | crash => simp only [cx] at hr b1; simp [hr, b1]
+  | hazard t => simp only [cx] at hr b1; simp [hr, b1]
 
 /-! ### Counterexample search is sound by construction -/
 
